@@ -70,16 +70,26 @@ Definition rr_size (r : rrange) (cl : Z) : Z :=
 Definition content_range_value (r : rrange) (cl : Z) : str :=
   bytes "bytes " ++ format_int (rr_start r cl) ++ [45%N] ++ format_int (rr_end r cl) ++ [47%N] ++ format_int cl.
 
-(* setRangedHeaders: (status, Some (content-length, content-range)) *)
-Definition set_ranged_headers (r : option rrange) (cl status : Z) : Z * option (str * str) :=
+(* setRangedHeaders: (status, Some (content-length, content-range), the range as it is used
+   afterwards: a suffix longer than the resource is clamped in place) *)
+Definition clamp_suffix (rr : rrange) (cl : Z) : rrange :=
+  match rr_s rr, rr_e rr with
+  | None, Some e => if cl <? - e then mkRange None (Some (- cl)) else rr
+  | _, _ => rr
+  end.
+
+Definition set_ranged_headers (r : option rrange) (cl status : Z) : Z * option (str * str) * option rrange :=
   match r with
-  | None => (status, None)
+  | None => (status, None, None)
   | Some rr =>
-    if negb (status =? 200) || (cl <=? 0) then (status, None)
-    else if (match rr_s rr with Some s => cl - 1 <? s | None => false end)
-            || (match rr_e rr with Some e => cl - 1 <? e | None => false end)
-    then (416, None)
-    else (206, Some (format_int (rr_size rr cl), content_range_value rr cl))
+    if negb (status =? 200) || (cl <=? 0) then (status, None, r)
+    else if (match rr_s rr, rr_e rr with None, Some e => 0 <=? e | _, _ => false end) then (416, None, r)
+    else
+      let rr' := clamp_suffix rr cl in
+      if (match rr_s rr' with Some s => cl - 1 <? s | None => false end)
+         || (match rr_e rr' with Some e => cl - 1 <? e | None => false end)
+      then (416, None, Some rr')
+      else (206, Some (format_int (rr_size rr' cl), content_range_value rr' cl), Some rr')
   end.
 
 (* sendBody: the bytes a reader positioned by Seek(start) and limited to size yields;
